@@ -16,7 +16,7 @@
    text level, exponents) are carried by the correspondence (every generated well-typed query in
    random spellings compiles to the generated AST). *)
 From JP Require Import Base Json Syntax Lex Parse Serialize TokPrint Printable Reparsable Gate NormDomain TokensOk
-                       FreeSpell ParseProofs RoundTrip FreeParseProofs.
+                       FreeSpell FreeSpellPlus Rfc9535Typing TypedDomain Eval ParseProofs RoundTrip FreeParseProofs FreeSpellPlusProofs TypingAccept.
 
 Theorem C07_gate :
   forall (E : env) re_ok (text : ustr) (q : query),
@@ -57,6 +57,39 @@ Theorem C07_accept_spelled :
     exists q', compile E re_ok t = Ok q' /\ norm_query q' = norm_query q.
 Proof. exact FreeParseProofs.free_spelling. Qed.
 Print Assumptions C07_accept_spelled.
+
+(* the property's first sentence: every query that is well-formed and well-typed under RFC 9535 - in
+   the sense of the INDEPENDENT transcription spec/Rfc9535Typing.v (std_query), with its index and
+   slice bounds inside the configured range and literals the model covers (floats: float_ok and
+   float_stable; regexes: valid for the regex oracle) - compiles from every free spelling, to a
+   query with the same normal form, which returns the same matches on every document *)
+Theorem C07_accept_rfc :
+  forall (E : env) re_ok rf rs (q : query) (t : ustr) (d ctx : json),
+    tokens_ok E = true -> e_well_typed E = true -> e_unicode_escape E = true ->
+    in_range (e_min_index E) (e_max_index E) 1%Z = true ->
+    Rfc9535Typing.std_query q = true ->
+    TypedDomain.bounds_ok (e_min_index E) (e_max_index E) q = true -> TypedDomain.literals_ok re_ok q = true ->
+    FreeSpell.spells E q t ->
+    exists q', compile E re_ok t = Ok q' /\
+               Eval.compound_finditer E rf rs q' d ctx = Eval.compound_finditer E rf rs q d ctx.
+Proof. exact TypingAccept.std_accept_results. Qed.
+Print Assumptions C07_accept_rfc.
+
+(* RFC typing implies the gate (the two were written independently) *)
+Theorem C07_rfc_typed_passes_gate :
+  forall (lo hi : Z) (q : query),
+    Rfc9535Typing.std_query q = true -> TypedDomain.bounds_ok lo hi q = true -> gate_query lo hi q = true.
+Proof. exact TypingAccept.std_gate. Qed.
+Print Assumptions C07_rfc_typed_passes_gate.
+
+(* the larger class of spellings: redundant parentheses, bare names inside brackets *)
+Theorem C07_accept_spelled_plus :
+  forall (E : env) re_ok (q : query) (t : ustr),
+    tokens_ok E = true -> e_well_typed E = true -> e_unicode_escape E = true ->
+    c10_domain E re_ok q = true -> FreeSpellPlus.spells_plus E q t ->
+    exists q', compile E re_ok t = Ok q' /\ norm_query q' = norm_query q.
+Proof. exact FreeSpellPlusProofs.free_spelling_plus. Qed.
+Print Assumptions C07_accept_spelled_plus.
 
 (* concrete instances of every rejection the property names, and of acceptance (non-vacuity) *)
 Example C07_examples :
